@@ -1,7 +1,7 @@
 """Single source for MANIFEST.json (bin/mkmanifest)."""
 
 HOOK_COMMITS = ["673019b", "625d9ba", "1d37b76"]
-FIX_COMMITS = ["12c9092", "3e9b6da", "a55c868"]   # filled by bin/mkmanifest callers: /repo commits that add guarded hooks
+FIX_COMMITS = ["12c9092", "3e9b6da", "a55c868", "72a27af", "81e61a6"]   # filled by bin/mkmanifest callers: /repo commits that add guarded hooks
 
 NOTES = ("All checks: bin/check <id>. Exit 0 = held, 1 = VIOLATION line + replay file, 2 = tool error (never a verdict). "
          "Specs under spec/<family>/, harness under harness/ (path deps on /repo; rebuilt by every check). "
@@ -88,6 +88,14 @@ CHECKS["C24"] = dict(engine="tlc+vh", level="model_checking", ref="4.13", techni
 CHECKS["C15"] = dict(engine="tlc+vh", level="model_checking", ref="4.7", technique="TLA+ spec (Join.tla) three-valued reference; TLC-generated arrival sequences (dense and window-boundary steps, in-order and disordered) replayed into JoinBuffer and an engine join; recorded outputs validated by TLC (JoinTrace.tla)",
                      text="For every recorded arrival TLC evaluates the reference on the recorded stream: no spurious output, the required pick per source, and an output wherever the statement requires one on in-order streams; missing outputs after disorder are the recorded finding.",
                      note="Trusted: TLC. Bounded: 2 sources, 2 keys, 50 ms time unit, window 1 s, <= 16 arrivals. Entries later than the arriving event: either.")
+
+MISC_NOTE = "Trusted: TLC as enumerator of the bounded input space; the harness rendering of symbolic shapes/forms to concrete values/text."
+CHECKS["C40"] = dict(engine="tlc+vh", level="model_checking", ref="4.21", technique="TLA+ spec (ValueEq.tla) enumerates with TLC every ordered triple of 34 value shapes with their reference classes; equivalence laws and hash consistency checked on the real Value for each",
+                     text="Finite domain, exhaustive: reflexivity, symmetry, transitivity and equal=>same hash are evaluated on all 39 304 triples, and values the documented semantics identify (NaN, -0.0, permuted maps) must be equal.", note=MISC_NOTE)
+CHECKS["C42"] = dict(engine="tlc+vh", level="model_checking", ref="4.21", technique="TLA+ spec (ForExpand.tla) defines Expand recursively; TLC enumerates every program of the grammar with its expansion; looped source and hand-expanded source are parsed by the real parser and compared",
+                     text="For all 2 096 programs of the grammar (nested loops, inclusive/exclusive/empty ranges, multi-declaration bodies) the parsed program equals the parse of the spec's expansion.", note=MISC_NOTE)
+CHECKS["C46"] = dict(engine="tlc+vh", level="model_checking", ref="4.21", technique="TLA+ spec (EventFile.tla) enumerates with TLC every file of <= 3 (4) lines over 15 line forms with its reference meaning; both real readers run on each and are compared",
+                     text="Exhaustive over the bounded file space: the two readers must produce the same event sequence (types and field values) or both reject.", note=MISC_NOTE)
 
 NOT_APPLICABLE = {
     "C41": "parser totality over arbitrary strings: no state/transition system to specify; a TLA+ model would only enumerate token strings (fuzzing under another name)",
